@@ -267,9 +267,21 @@ func genHistory(seed int64, index uint64, allowHuge bool) []bufCall {
 
 // C14: a reused Buffer never changes results, even when shared with the handler.
 func RunC14(c *Ctx) {
+	// one Buffer that lives as long as the worker: every fifth history continues on it instead of on
+	// a Buffer of its own, so that it sees tens of thousands of calls, thousands of them ending in
+	// errors (seeded change C14r7-m2: a counter kept in the Buffer that loses one level on every
+	// failed handler traversal and locks the Buffer after 10,000 of them)
+	var marathon rjson.Buffer
 	runHistory := func(index uint64, verbose bool) {
 		calls := genHistory(c.Seed, index, true)
-		var shared rjson.Buffer
+		var own rjson.Buffer
+		shared := &own
+		longLived := ""
+		if index%5 == 2 && !verbose {
+			shared = &marathon
+			longLived = " [on the worker's long-lived Buffer, which earlier histories of this shard have used]"
+			c.Rec.C("histories_continued_on_the_long_lived_buffer")
+		}
 		prevKind := "start"
 		// the documents of one history arrive in ONE reused input buffer (the way a program reads
 		// lines or messages into a scratch slice): the same address, refilled with different bytes
@@ -289,8 +301,8 @@ func RunC14(c *Ctx) {
 			var t1, t2 transcript
 			var p1, p2 int
 			var e1, e2 error
-			cs := &h.Case{Family: "W9", Desc: fmt.Sprintf("history %d (seed %d), call %d of %d: %s with %s program", index, c.Seed, i, len(calls), bufFnNames[call.fn], progNames[call.prog.kind]), Input: call.doc}
-			if c.Guarded(cs, bufFnNames[call.fn]+" (shared buffer)", func() { p1, e1 = execBufCall(&t1, call, call.doc, &shared, 0) }) {
+			cs := &h.Case{Family: "W9", Desc: fmt.Sprintf("history %d (seed %d), call %d of %d: %s with %s program%s", index, c.Seed, i, len(calls), bufFnNames[call.fn], progNames[call.prog.kind], longLived), Input: call.doc}
+			if c.Guarded(cs, bufFnNames[call.fn]+" (shared buffer)", func() { p1, e1 = execBufCall(&t1, call, call.doc, shared, 0) }) {
 				continue
 			}
 			if c.Guarded(cs, bufFnNames[call.fn]+" (nil buffer)", func() { p2, e2 = execBufCall(&t2, call, call.doc, nil, 0) }) {
@@ -302,7 +314,7 @@ func RunC14(c *Ctx) {
 			if t1.maxLevel > 0 {
 				c.Rec.C("calls_with_reentrant_sharing")
 			}
-			c.Rec.Max("max_stack_buffer_len_seen", int64(stackLen(&shared)))
+			c.Rec.Max("max_stack_buffer_len_seen", int64(stackLen(shared)))
 			kind := outcomeKind(p1, e1, call.fn, "")
 			c.Rec.SetAdd("previous_outcome->next_function", prevKind+"->"+bufFnNames[call.fn])
 			c.Rec.C("outcome_" + kind)
